@@ -257,8 +257,8 @@ Definition need_of (m : mlas) : option bool :=
             | Some sv =>
                 let stop_diff :=
                   match lastc, sv with
-                  | CNum t, VInt z => negb (numeq t (z_to_str z))
-                  | CNum t, VFloat x => negb (numeq t x)
+                  | CNum t, VInt z => negb (numeq (fmtv ff t) (z_to_str z))
+                  | CNum t, VFloat x => negb (numeq (fmtv ff t) x)
                   | _, _ => true
                   end in
                 Some (negb (cells_equal numeq ii index) || stop_diff)
